@@ -3,6 +3,7 @@ import copy
 import random
 from typing import Any, Dict, Iterator, List, Optional, Tuple
 
+import core
 from core import Case, Prop, SelfCheckFailure
 from gen import hx, unhx, pool, out_pool, rbytes
 
@@ -108,6 +109,12 @@ def _frame_fields(f):
 
 
 def _props(p):
+    """the managed-parameter object for a parameter set: ONE instance per distinct set, reused by every later call
+    with equal parameters (mission configuration is built once and handed to every unpack in real programs)"""
+    return core.REUSE.get(["uslp-frame-properties", p["kind"], p["len"], p["iz"], p["fecf"]], lambda: _props_new(p))
+
+
+def _props_new(p):
     kw = dict(has_insert_zone=p["iz"] is not None, has_fecf=p["fecf"] is not None,
               insert_zone_len=p["iz"], fecf_len=p["fecf"])
     if p["kind"] == 0:
@@ -128,14 +135,13 @@ def _norm_hdr(f: Dict[str, Any]) -> Dict[str, Any]:
 # ---------------------------------------------------------------------------------------------
 def op_hdr_pack(a):
     h = _phdr(a)
-    raw = bytes(h.pack())
+    # (packs twice, the caller modifying the first returned buffer in between)
+    raw = core.pack_stable(h, "PrimaryHeader.pack()")
     if a.get("check"):
         if len(raw) != h.len():
             raise SelfCheckFailure(f"len(pack())={len(raw)} != len()={h.len()}")
-        if bytes(h.pack()) != raw:
-            raise SelfCheckFailure("pack() twice gives different octets")
         h2 = PrimaryHeader.unpack(raw)
-        if _norm_hdr(_phdr_fields(h2)) != _norm_hdr(_phdr_fields(h)):
+        if _norm_hdr(core.ISOLATION.check("PrimaryHeader", h2, _phdr_fields)) != _norm_hdr(_phdr_fields(h)):
             raise SelfCheckFailure("unpack(pack(h)) has different field values")
         if bytes(h2.pack()) != raw:
             raise SelfCheckFailure("re-packing the decoded header does not reproduce the octets")
@@ -145,19 +151,21 @@ def op_hdr_pack(a):
 def op_hdr_unpack(a):
     raw = unhx(a["raw"])
     h = PrimaryHeader.unpack(raw, a["version"])
-    if a.get("check") and bytes(h.pack()) != raw[: h.len()]:
+    # headers decoded by earlier calls must still show what they showed then
+    f = _ISO_SWEEP.check("PrimaryHeader", h, _phdr_fields)
+    if a.get("check") and core.pack_stable(h, "PrimaryHeader.pack() of a decoded header") != raw[: h.len()]:
         raise SelfCheckFailure("pack(unpack(b)) != b[:len]")
-    return _phdr_fields(h)
+    return f
 
 
 def op_thdr_pack(a):
     h = _thdr(a)
-    raw = bytes(h.pack())
+    raw = core.pack_stable(h, "TruncatedPrimaryHeader.pack()")
     if a.get("check"):
         if len(raw) != h.len():
             raise SelfCheckFailure(f"len(pack())={len(raw)} != len()={h.len()}")
         h2 = TruncatedPrimaryHeader.unpack(raw)
-        if _thdr_fields(h2) != _thdr_fields(h):
+        if core.ISOLATION.check("TruncatedPrimaryHeader", h2, _thdr_fields) != _thdr_fields(h):
             raise SelfCheckFailure("unpack(pack(h)) has different field values")
     return {"raw": hx(raw), "len": int(h.len())}
 
@@ -165,9 +173,10 @@ def op_thdr_pack(a):
 def op_thdr_unpack(a):
     raw = unhx(a["raw"])
     h = TruncatedPrimaryHeader.unpack(raw, a["version"])
-    if a.get("check") and bytes(h.pack()) != raw[:4]:
+    f = _ISO_SWEEP.check("TruncatedPrimaryHeader", h, _thdr_fields)
+    if a.get("check") and core.pack_stable(h, "TruncatedPrimaryHeader.pack() of a decoded header") != raw[:4]:
         raise SelfCheckFailure("pack(unpack(b)) != b[:4]")
-    return _thdr_fields(h)
+    return f
 
 
 def op_hdr_type(a):
@@ -181,7 +190,7 @@ def op_tfdf_new(a):
 def op_tfdf_pack(a):
     t = _tfdf(a)
     ft = _ft(a["frame_type"])
-    raw = bytes(t.pack(truncated=bool(a["truncated"]), frame_type=ft))
+    raw = core.pack_stable(t, "TransferFrameDataField.pack()", packer=lambda: t.pack(truncated=bool(a["truncated"]), frame_type=ft))
     if a.get("check") and len(raw) != t.len():
         raise SelfCheckFailure(f"len(tfdf.pack())={len(raw)} != tfdf.len()={t.len()}")
     return {"raw": hx(raw), "len": int(t.len()),
@@ -191,7 +200,7 @@ def op_tfdf_pack(a):
 def op_tfdf_unpack(a):
     t = TransferFrameDataField.unpack(raw_tfdf=unhx(a["raw"]), truncated=bool(a["truncated"]),
                                       exact_len=a["exact_len"], frame_type=_ft(a["frame_type"]))
-    return _tfdf_fields(t)
+    return core.ISOLATION.check("TransferFrameDataField", t, _tfdf_fields)
 
 
 def op_tfdf_query(a):
@@ -220,22 +229,21 @@ def op_frame_pack(a):
     if a["set_len"]:
         f.set_frame_len_in_header()
     ft = _ft(a["frame_type"])
-    raw = bytes(f.pack(truncated=bool(a["truncated"]), frame_type=ft))
+    raw = core.pack_stable(f, "TransferFrame.pack()", packer=lambda: f.pack(truncated=bool(a["truncated"]), frame_type=ft))
     is_primary = a["hdr"]["kind"] == "primary"
     if a.get("check"):
         if len(raw) != f.len():
             raise SelfCheckFailure(f"len(pack())={len(raw)} != len()={f.len()}")
         if is_primary and a["set_len"] and f.header.frame_len != len(raw) - 1:
             raise SelfCheckFailure("frame length field after set_frame_len_in_header() is not packed size - 1")
-        if bytes(f.pack(truncated=bool(a["truncated"]), frame_type=ft)) != raw:
-            raise SelfCheckFailure("pack() twice gives different octets")
         # decode with the matching managed parameters
         if a["set_len"] or not is_primary:
             uft = a["check_ft"]
             p = {"kind": uft, "len": len(raw), "iz": None if a["iz"] is None else len(unhx(a["iz"])),
                  "fecf": None if a["fecf"] is None else len(unhx(a["fecf"]))}
-            f2 = TransferFrame.unpack(raw_frame=raw, frame_type=FrameType(uft), frame_properties=_props(p))
-            want, got = _frame_fields(f), _frame_fields(f2)
+            # (a fresh managed-parameter object: the verdict of a pack case depends on this case alone)
+            f2 = TransferFrame.unpack(raw_frame=raw, frame_type=FrameType(uft), frame_properties=_props_new(p))
+            want, got = _frame_fields(f), core.ISOLATION.check("TransferFrame", f2, _frame_fields)
             want["hdr"], got["hdr"] = _norm_hdr(want["hdr"]), _norm_hdr(got["hdr"])
             if want != got:
                 diff = sorted(k for k in want if want[k] != got[k])
@@ -246,12 +254,26 @@ def op_frame_pack(a):
 def op_frame_unpack(a):
     raw = unhx(a["raw"])
     ft = FrameType(a["frame_type"])
-    f = TransferFrame.unpack(raw_frame=raw, frame_type=ft, frame_properties=_props(a["props"]))
+    # `before`: frames of the same channel configuration decoded first with the SAME managed-parameter object (what a
+    # receiver does); they must decode, and must not influence how the frame of this case is decoded. Such a case
+    # starts from a fresh object, so it is a self-contained failing input (replayable); all other cases share one
+    # object per distinct parameter set with every earlier and later case (core.REUSE).
+    props = _props_new(a["props"]) if a.get("before") else _props(a["props"])
+    for b in a.get("before", ()):
+        TransferFrame.unpack(raw_frame=unhx(b), frame_type=ft, frame_properties=props)
+    f = TransferFrame.unpack(raw_frame=raw, frame_type=ft, frame_properties=props)
+    # frames decoded by earlier calls must still show what they showed then
+    fields = core.ISOLATION.check("TransferFrame", f, _frame_fields)
     if a.get("check"):
-        again = bytes(f.pack(truncated=f.header.truncated(), frame_type=ft))
+        again = core.pack_stable(f, "TransferFrame.pack() of a decoded frame",
+                                 packer=lambda: f.pack(truncated=f.header.truncated(), frame_type=ft))
         if again != raw[: f.len()] or len(again) != f.len():
             raise SelfCheckFailure("pack(unpack(b)) != b[:len]")
-    return _frame_fields(f)
+    return fields
+
+
+# the exhaustive header sweeps decode ~250 000 headers: they look back one object only (run time)
+_ISO_SWEEP = core.Isolation(keep=1)
 
 
 def _cls(fn):
@@ -672,6 +694,8 @@ class C17(Prop):
 
     # -----------------------------------------------------------------------------------------
     def frame_cases(self, rng, thorough):
+        # --- one managed-parameter object, one virtual channel, frames of different make-up back to back ---
+        yield from self.sequence_cases(rng, thorough)
         sampled = []
         reps = 3 if thorough else 1
         for rules, truncated, iz, ocf, fecf, tl in frame_configs(rng, thorough):
@@ -785,6 +809,66 @@ class C17(Prop):
                             yield Case({"op": "uslp_props_new", "kind": kind, "len": rng.randint(0, 100), "has_iz": has_iz,
                                         "has_fecf": has_fecf, "iz_len": izl, "fecf_len": fl},
                                        "invalid" if bad else "valid", errclass=bool(bad), tag="props")
+
+    def sequence_cases(self, rng, thorough):
+        """Frames that share the managed parameters AND the virtual channel but differ in what the primary header
+        says per frame (OCF flag, VCF length, MAP/SCID, header kind), decoded back to back with ONE properties object
+        (`before` = frames decoded first with the very same, fresh object, see op_frame_unpack; the "seq-consecutive"
+        cases instead rely on the object that core.REUSE shares between cases). Every case is decoded by the model
+        on its own, so anything a decode leaves behind in the properties object (or anywhere else) shows."""
+        def var_len():
+            # truncated_frame_len is not consulted for regular frames
+            return rng.choice([0, 16, rng.randint(0, 70000)])
+
+        def unpack_case(raw, ft, p, before, tag):
+            return Case({"op": "uslp_frame_unpack", "raw": hx(raw), "frame_type": ft, "props": p, "check": True,
+                         "before": [hx(b) for b in before]}, "valid", tag=tag)
+
+        for _ in range(12 if thorough else 4):
+            for kind in (0, 1):
+                pool_r = FP_RULES if kind == 0 else VP_RULES
+                for iz in (None, 3):
+                    for fecf in (None, 2):
+                        vcid, n, tl = rng.randint(0, 63), rng.randint(0, 7), rng.randint(5, 14)
+                        # A carries an OCF, B does not; same channel, same managed parameters (fixed: same total length)
+                        fa, ft = wf_frame(rng, rng.choice(pool_r), False, iz, True, fecf, tl, vcf_len=n)
+                        fb, _ = wf_frame(rng, rng.choice(pool_r), False, iz, False, fecf,
+                                         tl + 4 if kind == 0 else rng.randint(0, 14), vcf_len=n)
+                        # C: as A in everything but the OCF (same ids, same data zone length + 4)
+                        fc = copy.deepcopy(fa)
+                        fc["ocf"], fc["hdr"]["ocf"] = None, 0
+                        fc["tfdf"]["tfdz"] = hx(unhx(fa["tfdf"]["tfdz"]) + rbytes(rng, 4))
+                        for f in (fa, fb, fc):
+                            f["hdr"]["vcid"] = vcid
+                        ra, rb, rc = enc_frame(fa), enc_frame(fb), enc_frame(fc)
+                        mk = (lambda: {"kind": 0, "len": len(ra), "iz": iz, "fecf": fecf}) if kind == 0 else \
+                             (lambda: {"kind": 1, "len": var_len(), "iz": iz, "fecf": fecf})
+                        sfx = rbytes(rng, rng.choice([0, 0, 3])) if kind == 1 else b""
+                        yield unpack_case(rb + sfx, ft, mk(), [ra], "seq-ocf-then-none")
+                        yield unpack_case(ra + sfx, ft, mk(), [rb], "seq-none-then-ocf")
+                        yield unpack_case(rc, ft, mk(), [ra], "seq-same-ids-ocf-dropped")
+                        yield unpack_case(ra, ft, mk(), [rc, ra, rb], "seq-flip-flop")
+                        yield unpack_case(rb, ft, mk(), [ra, rb, rc, ra], "seq-flip-flop")
+                        # the same frames through plain consecutive cases (the properties object is reused across cases)
+                        p = mk()
+                        for r in (ra, rb, rc, ra):
+                            yield unpack_case(r, ft, p, [], "seq-consecutive")
+                        # same channel, other managed parameters (insert zone / FECF sizes) right afterwards
+                        iz2, fecf2 = (None if iz else 5), (4 if fecf else None)
+                        fd, _ = wf_frame(rng, rng.choice(pool_r), False, iz2, bool(rng.getrandbits(1)), fecf2, rng.randint(0, 9), vcf_len=n)
+                        fd["hdr"]["vcid"] = vcid
+                        rd = enc_frame(fd)
+                        yield unpack_case(rd, ft, {"kind": kind, "len": len(rd), "iz": iz2, "fecf": fecf2}, [], "seq-other-params-same-vcid")
+                        yield unpack_case(ra, ft, p, [], "seq-other-params-same-vcid")
+                        if kind == 1:
+                            # truncated and regular frames of one channel share a VarFrameProperties object
+                            ftr, _ = wf_frame(rng, rng.choice(VP_RULES), True, iz, False, fecf, rng.randint(0, 9))
+                            ftr["hdr"]["vcid"] = vcid
+                            rt = enc_frame(ftr)
+                            pt = {"kind": 1, "len": len(rt), "iz": iz, "fecf": fecf}
+                            yield unpack_case(ra, 1, pt, [rt], "seq-truncated-then-regular")
+                            yield unpack_case(rt, 1, pt, [ra, rb], "seq-regular-then-truncated")
+                            yield unpack_case(rb, 1, pt, [rt, ra], "seq-truncated-then-regular")
 
     def mismatch_cases(self, rng, f, ft, raw, p, thorough):
         trunc = f["hdr"]["kind"] == "truncated"
